@@ -17,7 +17,7 @@ CACHE_OPS = {
     "tensordot": 7, "align_axes": 3, "transpose": 3, "conj": 3, "dagger": 2,
     "svd_truncated": 2, "squeeze": 1, "expand_dims": 1, "sync_charges": 2,
     "multiply_diagonal": 2, "matmul": 1, "einsum": 1, "qr": 1, "copy": 1,
-    "tdot_scalar": 1, "sparsity": 1, "reassemble": 1,
+    "tdot_scalar": 1, "sparsity": 1, "reassemble": 1, "expm": 1, "index_ops": 1,
 }
 
 UNARY_ECHO = {
@@ -778,7 +778,7 @@ THREAD_OPS = {
     "unary": 1, "transpose": 3, "einsum": 1, "copy": 1, "align_axes": 1,
     "svd_truncated": 1, "multiply_diagonal": 1, "matmul": 1, "arith2": 1,
     "solve": 1, "eigh": 1, "trace": 1, "squeeze": 1, "expand_dims": 1, "sync_charges": 1,
-    "sparsity": 2, "new": 2, "reassemble": 1, "tdot_scalar": 1,
+    "sparsity": 2, "new": 2, "reassemble": 1, "tdot_scalar": 1, "expm": 1,
 }
 
 _TIERS = None
